@@ -45,18 +45,22 @@ CLAUSES = ["TypeOK", "UnchangedClause", "EscapeClause", "ProtectClause", "TypedC
 MERGE_CLAUSES = ["NeutralClause", "ReplaceClause", "SurviveClause", "KeyByKeyClause", "NoInventClause", "IdemClause"]
 # (Keys, LeafNames, Depth, NSrc, Small)
 MERGE_PLANS = {
-    "quick": [(["a", "b"], ["i1", "l2"], 2, 2, False), (["a", "b"], ["i1", "nil"], 2, 3, True)],
-    "thorough": [(["a", "b"], ["i1", "sx", "nil", "l2"], 2, 2, False), (["a", "b"], ["i1", "nil", "lm"], 2, 3, True),
-                 (["a"], ["i1", "nil", "le"], 3, 4, False)],
+    "quick": [(["a", "b"], ["i1", "l2"], 2, 2, False), (["a", "b"], ["i1", "nil"], 2, 3, True),
+              (["a", "b"], ["i1", "sx", "nil", "l1", "l2", "le"], 1, 2, False)],
+    "thorough": [(["a", "b"], ["i1", "nil", "l2"], 2, 2, False), (["a", "b"], ["i1", "nil", "lm"], 2, 3, True),
+                 (["a"], ["i1", "nil", "le"], 3, 4, False),
+                 (["a", "b"], ["i1", "sx", "nil", "l1", "l2", "le", "lm"], 1, 2, False),
+                 (["a", "b", "c"], ["i1", "nil", "l1", "l2"], 1, 2, False)],
 }
-LEAF = {"i1": 1, "i2": 2, "sx": "x", "nil": None, "l2": [2, 3], "le": [], "lm": [{"a": 1}, None]}
+LEAF = {"i1": 1, "i2": 2, "sx": "x", "nil": None, "l1": [1], "l2": [2, 3], "le": [], "lm": [{"a": 1}, None]}
 
 
 def consts(alpha, n, tabs, fixed=None):
+    """fixed: None (specification) | list of booleans (FixedModes of the implementation-shaped model)"""
     s = "CONSTANTS\n  Chunks = {%s}\n  MaxLen = %d\n  Defs = {TRUE, FALSE}\n  Tabs = {%s}\n" % (
         ", ".join('"%s"' % a for a in ALPHA[alpha]), n, ", ".join('"%s"' % t for t in tabs))
     if fixed is not None:
-        s += "  Fixed = %s\n" % ("TRUE" if fixed else "FALSE")
+        s += "  FixedModes = {%s}\n" % ", ".join("TRUE" if f else "FALSE" for f in fixed)
     return s
 
 
@@ -65,10 +69,10 @@ def spec_cfg(alpha, n, tabs):
            "INVARIANT Emit\nCHECK_DEADLOCK FALSE\n"
 
 
-def impl_cfg(alpha, n, tabs, fixed, emit=True):
-    return "SPECIFICATION ImplSpec\n" + consts(alpha, n, tabs, fixed) + "INVARIANT TypeOK\n" + \
+def impl_cfg(alpha, n, tabs, fixed=(True, False), emit=True, strict=False):
+    return "SPECIFICATION ImplSpec\n" + consts(alpha, n, tabs, list(fixed)) + "INVARIANT TypeOK\n" + \
            ("INVARIANT EmitImpl\n" if emit else "") + \
-           "PROPERTY %s\nCHECK_DEADLOCK FALSE\n" % ("Refines" if fixed else "RefinesKnown")
+           "PROPERTY %s\nCHECK_DEADLOCK FALSE\n" % ("RefinesStrict" if strict else "Refines")
 
 
 def merge_cfg(keys, leaves, depth, nsrc, small):
@@ -111,7 +115,7 @@ def run(c):
         rp = json.load(open(c.replay))["replay"]
         lines = [json.dumps(l) for l in rp["lines"]]
         run_driver(c, binp, lines, "replay", {})
-        c.tlc_must_pass("ConfResolve", "ConfResolveImpl", cfg_text=impl_cfg("esc", 3, ["T1"], True, emit=False),
+        c.tlc_must_pass("ConfResolve", "ConfResolveImpl", cfg_text=impl_cfg("esc", 3, ["T1"], emit=False),
                         label="design-replay", timeout=300, workers=4)
         c.finish_args = dict(rule="replay of one recorded case")
         return
@@ -122,13 +126,12 @@ def run(c):
     for (alpha, n, tabs) in plans:
         name = "%s%d%s" % (alpha, n, "".join(tabs))
         jobs.append((name, "spec", "ConfResolveGen", spec_cfg(alpha, n, tabs)))
-        jobs.append((name, "fixed", "ConfResolveImplGen", impl_cfg(alpha, n, tabs, True)))
-        jobs.append((name, "pinned", "ConfResolveImplGen", impl_cfg(alpha, n, tabs, False)))
+        jobs.append((name, "impl", "ConfResolveImplGen", impl_cfg(alpha, n, tabs)))
     results = {}
 
     def tlc_job(job):
         name, kind, module, cfg = job
-        r = c.tlc("ConfResolve", module, cfg_text=cfg, workers=(2 if q else 4), timeout=(240 if q else 1500),
+        r = c.tlc("ConfResolve", module, cfg_text=cfg, workers=(3 if q else 4), timeout=(240 if q else 1500),
                   label="%s_%s" % (name, kind), count=False, heap="4g")
         with lock:
             c.states += r.distinct
@@ -144,6 +147,9 @@ def run(c):
                 # a failure of the model alone is never a violation (DESIGN 2.4)
                 raise vlib.Inconclusive("TLC design check failed on %s/%s: %s\n%s" % (name, kind, r.error, r.trace_text[:3000]
                                                                                        or r.out[-2000:]))
+            if r.out.count('<<"BEH", "') != len(r.printed):
+                raise vlib.Inconclusive("TLC output of %s/%s garbled: %d BEH lines, %d parsed" % (
+                    name, kind, r.out.count('<<"BEH", "'), len(r.printed)))
             results[(name, kind)] = r
             c.log("TLC %s/%s: %d states, %d final states printed, %.1fs" % (name, kind, r.distinct, len(r.printed), r.wall))
 
@@ -163,7 +169,7 @@ def run(c):
                 adm.setdefault(key, set()).add(o)
             else:
                 p = pred.setdefault(key, {"kd": False})
-                p[kind] = o
+                p["fixed" if b["fx"] else "pinned"] = o
                 p["kd"] = p["kd"] or bool(b.get("kd"))
     if not tables or not adm:
         raise vlib.Inconclusive("generator printed no tables / no final states")
@@ -186,6 +192,17 @@ def run(c):
         lines.append(json.dumps({"kind": "exp", "id": nid, "tab": tb, "def": d, "s": s, "adm": a,
                                  "pred": [json.loads(pred[key]["fixed"]), json.loads(pred[key]["pinned"])],
                                  "kd": pred[key]["kd"]}))
+    # non-vacuity of the enumeration: every kind of outcome the statement talks about occurs
+    kinds = dict(error=0, typed=0, container=0, text=0, several=ndoubt, known=sum(1 for k in pred if pred[k]["kd"]))
+    for key in adm:
+        for o in adm[key]:
+            kinds["error" if '"t": "err"' in o else "typed" if '"t": "yaml"' in o else
+                  "container" if ('"t": "map"' in o or '"t": "list"' in o) else "text"] += 1
+    if not q or not c.replay:
+        vac = [k for k, v in kinds.items() if v == 0]
+        if vac:
+            raise vlib.Inconclusive("vacuous enumeration: no root with outcome kind %s" % vac)
+    c.extra["admissible_outcomes_by_kind"] = kinds
     c.log("expansion cases: %d roots (%d with more than one admissible result, %d with the known-defect predicate)"
           % (nid, ndoubt, sum(1 for k in pred if pred[k]["kd"])))
 
